@@ -20,7 +20,8 @@ ORDER_NEEDED = {'R2': 2, 'Mercier': 2, 'GGB': 2, 'GGBCart': 2, 'RSing': 2, 'R3':
 
 
 def run_driver(text):
-    p = subprocess.run(['lake', 'env', 'lean', '--run', 'QscModel/Driver.lean'], cwd=LEAN, input=text, capture_output=True, text=True)
+    from corr_hand import _run_driver_process
+    p = _run_driver_process(text)
     if p.returncode != 0:
         raise RuntimeError('driver failed: ' + p.stderr[-2000:] + p.stdout[-500:])
     blocks, cur = [], {}
